@@ -742,7 +742,12 @@ func (w *world) dsSet(keys []*dns.DNSKEY, ktoks, rtoks []string, owner string, s
 		}
 		return strings.Join(x, ";")
 	}
-	w.out("dsv verify " + tok(ktoks) + " " + tok(dtoks) + " " + tok(rtoks))
+	h := 0
+	for _, c := range tok(dtoks) {
+		h = (h*31 + int(c)) % 1000003
+	}
+	w.out("dsv verify " + tok(ktoks) + " " + tok(dtoks) + " " + tok(rtoks) +
+		fmt.Sprintf(" g=%d,%d", []int{1, 2, 1000}[h%3], []int{0, 1, 2, 1000}[(h/3)%4]))
 }
 
 // ---------------------------------------------------------------- RSA pieces
@@ -1271,11 +1276,11 @@ func (w *world) genMessage() {
 			}
 		}
 	}
-	for scenario := 0; scenario < 19; scenario++ {
-		if scenario > 0 && r.Chance(1, 2) {
+	for scenario := 0; scenario < 21; scenario++ {
+		if scenario > 0 && scenario < 19 && r.Chance(1, 2) {
 			continue
 		}
-		if scenario >= 12 && dnameCase == nil {
+		if scenario >= 12 && scenario <= 18 && dnameCase == nil {
 			continue
 		}
 		keys := []*dns.DNSKEY{first.k}
@@ -1376,6 +1381,15 @@ func (w *world) genMessage() {
 			if scenario != 17 {
 				nAns = len(rrs)
 			}
+		case 19: // the signatures that verified over the genuine message, now over altered contents
+			i := r.Intn(len(rrs))
+			rrs = append([]wireRR(nil), rrs...)
+			rrs[i].rdata = otherRdata(r, rrs[i].typ, rrs[i].rdata)
+		case 20: // ... or with a record more
+			extra := rrs[r.Intn(len(rrs))]
+			extra.rdata = genRdata(r, extra.typ)
+			rrs = append(append([]wireRR(nil), rrs...), extra)
+			nAns = len(rrs)
 		case 11: // the key offered is not the signer's / not a zone key
 			k2 := *first.k
 			if r.Bool() {
@@ -1527,6 +1541,16 @@ func (w *world) baseCaseOpt(s *signer, o baseOpts) (vcase, []byte, bool) {
 		TypeCovered: typ, Algorithm: alg, Labels: sf.labels, OrigTtl: sf.origTTL, Expiration: sf.exp, Inception: sf.inc, KeyTag: sf.keyTag,
 		SignerName: pres(joinWireName(recaseLabels(r, zoneL))), Signature: b64(raw)}
 	return vcase{k: k, sig: sig, rrs: rrs}, raw, true
+}
+
+// otherRdata: well-formed RDATA of the type that differs from rd.
+func otherRdata(r *vlib.R, typ uint16, rd []byte) []byte {
+	for t := 0; t < 20; t++ {
+		if n := genRdata(r, typ); !bytes.Equal(n, rd) {
+			return n
+		}
+	}
+	return append(append([]byte(nil), rd...), 1)
 }
 
 // signedCase: a correctly signed RRset with a given zone, owner and records.
@@ -1714,6 +1738,28 @@ func (w *world) verifyGroup(s *signer) {
 		return
 	}
 	w.out(c.line())
+	// the very same key and RRSIG over other contents of the RRset, right after the genuine one verified:
+	// a record altered, one added, one removed, and the genuine set once more
+	for _, f := range []func(v *vcase){
+		func(v *vcase) { v.rrs[0].rdata = otherRdata(r, v.rrs[0].typ, v.rrs[0].rdata) },
+		func(v *vcase) {
+			extra := v.rrs[0]
+			extra.rdata = genRdata(r, extra.typ)
+			v.rrs = append(v.rrs, extra)
+		},
+		func(v *vcase) {
+			if len(v.rrs) > 1 {
+				v.rrs = v.rrs[1:]
+			} else {
+				v.rrs[0].rdata = genRdata(r, v.rrs[0].typ)
+			}
+		},
+		func(v *vcase) {},
+	} {
+		v := cloneCase(c)
+		f(&v)
+		w.out(v.line())
+	}
 	vs := w.variants(c, raw, s)
 	big := s.kind == "rsa" && s.mod.bits >= 4096
 	for _, v := range vs[:w.shapes] {
@@ -1949,6 +1995,51 @@ func (w *world) sweeps() {
 			// both keys offered, an RRset signed by the second
 			w.out(msgLine(cases[1].sig.SignerName, []*dns.DNSKEY{cases[0].k, cases[1].k}, []*dns.RRSIG{cases[1].sig}, cases[1].rrs, len(cases[1].rrs)))
 			w.out(msgLine(cases[0].sig.SignerName, []*dns.DNSKEY{cases[1].k, cases[0].k}, []*dns.RRSIG{cases[0].sig}, cases[0].rrs, len(cases[0].rrs)))
+		}
+	}
+	// exponents wider than 64 bits (9, 16, 64, 65 octets): refused whatever their low 64 bits are - also when
+	// the signature is valid for the exponent truncated to its low 64 bits
+	w.out("rsa new")
+	{
+		sg := w.rsa[2*len(exponents)+1] // 1024 bits, e = 65537, d known
+		signed := r.Bytes(24)
+		sig := sg.sign(8, signed)
+		for _, n := range []int{9, 16, 64, 65} {
+			eb := r.Bytes(n)
+			eb[0] |= 1
+			copy(eb[n-8:], []byte{0, 0, 0, 0, 0, 1, 0, 1}) // low 64 bits = 65537
+			pk := b64(rsaPubRaw(eb, sg.mod.n.Bytes(), 0))
+			w.out("rsa parse " + hexStr(pk))
+			w.out(fmt.Sprintf("rsa vfy 8 %s %s %s %s", hexStr(pk), vlib.Hex(signed), vlib.Hex(refHash(8, signed)), vlib.Hex(sig)))
+		}
+		w.out(fmt.Sprintf("rsa vfy 8 %s %s %s %s", hexStr(sg.pub), vlib.Hex(signed), vlib.Hex(refHash(8, signed)), vlib.Hex(sig)))
+	}
+	// duplicates that are not adjacent in arrival order: A B A, C B A B C
+	for _, pat := range [][]int{{0, 1, 0}, {2, 1, 0, 1, 2}, {0, 1, 2, 0}} {
+		zl := genLabels(r, 1, 2, true)
+		ol := append(genLabels(r, 1, 1, true), zl...)
+		owner := joinWireName(ol)
+		typ := vlib.Pick(r, []uint16{1, 16, 15, 65280})
+		var distinct []wireRR
+		for len(distinct) < 3 {
+			rr := wireRR{owner: owner, typ: typ, class: 1, ttl: uint32(r.Intn(500)), rdata: genRdata(r, typ)}
+			dup := false
+			for _, d := range distinct {
+				dup = dup || bytes.Equal(d.rdata, rr.rdata)
+			}
+			if !dup {
+				distinct = append(distinct, rr)
+			}
+		}
+		var rrs []wireRR
+		for _, i := range pat {
+			rrs = append(rrs, distinct[i])
+		}
+		w.out("sd new")
+		w.sdLine(typ, len(ol), joinWireName(zl), owner, rrs)
+		if c, ok := w.signedCase(vlib.Pick(r, w.others), zl, ol, rrs); ok {
+			w.out("vfy new")
+			w.out(c.line())
 		}
 	}
 	// one full verification group per kind of key, every run: RSA narrow and wide exponent, both curves, Ed25519
